@@ -3,7 +3,9 @@ package engine
 import (
 	"errors"
 	"fmt"
+	"sort"
 	"strings"
+	"sync"
 
 	"verif/mc/spec"
 )
@@ -59,7 +61,29 @@ func NewOS[T comparable, P Object[T]](i *Impl[T, P], r *Report) *OS[T, P] {
 }
 
 // illegalPools builds the small illegal alphabets used inside sweeps.
+var (
+	poolsMu    sync.Mutex
+	poolsCache = map[*spec.Version]struct {
+		v [][]string
+		a []string
+	}{}
+)
+
 func illegalPools(ver *spec.Version) (badVals [][]string, badAbvs []string) {
+	poolsMu.Lock()
+	defer poolsMu.Unlock()
+	if c, ok := poolsCache[ver]; ok {
+		return c.v, c.a
+	}
+	badVals, badAbvs = illegalPoolsBuild(ver)
+	poolsCache[ver] = struct {
+		v [][]string
+		a []string
+	}{badVals, badAbvs}
+	return
+}
+
+func illegalPoolsBuild(ver *spec.Version) (badVals [][]string, badAbvs []string) {
 	pool := map[string]bool{"": true, " ": true, "\x00": true, "XX": true, "x": true, "nd": true, "Nd": true}
 	abvs := map[string]bool{"": true, " ": true, "\x00": true, "ZZ": true}
 	for _, v := range spec.Versions {
@@ -105,13 +129,7 @@ func illegalPools(ver *spec.Version) (badVals [][]string, badAbvs []string) {
 	return
 }
 
-func sortStrings(s []string) {
-	for i := 1; i < len(s); i++ {
-		for j := i; j > 0 && s[j] < s[j-1]; j-- {
-			s[j], s[j-1] = s[j-1], s[j]
-		}
-	}
-}
+func sortStrings(s []string) { sort.Strings(s) }
 
 // ReadAll reads an object through Get and translates it to a model assignment.
 func (s *OS[T, P]) ReadAll(o T) (spec.Assignment, error) {
@@ -236,42 +254,47 @@ func (s *OS[T, P]) RunOps(start string, ops [][]string, preds Pred) (key, expect
 
 // stateInvariants checks the per-state predicates on object o whose model assignment is a.
 func (s *OS[T, P]) stateInvariants(a spec.Assignment, o T, preds Pred) (key, expected, observed string) {
+	key, expected, observed, _ = s.stateInvariantsV(a, o, preds)
+	return
+}
+
+// stateInvariantsV also returns the string Vector() returned (for the retained-string check of the sweeps).
+func (s *OS[T, P]) stateInvariantsV(a spec.Assignment, o T, preds Pred) (key, expected, observed, vec string) {
 	ver := s.I.Ver
 	if preds&(PredRoundTrip|PredWellFormed|PredForeign) != 0 {
-		var vec string
 		if p := Safely(func() { vec = P(&o).Vector() }); p != nil {
-			return "Vector-panic", "no panic", fmt.Sprint(p)
+			return "Vector-panic", "no panic", fmt.Sprint(p), vec
 		}
 		want := ver.Canon(a)
 		if vec != want {
-			return "Vector/not-canonical", want, vec
+			return "Vector/not-canonical", want, vec, vec
 		}
 		if preds&PredRoundTrip != 0 {
 			var back *T
 			var err error
 			if p := Safely(func() { back, err = s.I.Parse(vec) }); p != nil {
-				return "Parse-panic", "no panic", fmt.Sprint(p)
+				return "Parse-panic", "no panic", fmt.Sprint(p), vec
 			}
 			if err != nil || back == nil {
-				return "roundtrip/rejected", "ParseVector(Vector()) accepted: " + vec, fmt.Sprintf("err=%v", err)
+				return "roundtrip/rejected", "ParseVector(Vector()) accepted: " + vec, fmt.Sprintf("err=%v", err), vec
 			}
 			if *back != o {
-				return "roundtrip/not-equal", fmt.Sprintf("%v", s.I.Describe(o)), fmt.Sprintf("%v from %s", s.I.Describe(*back), vec)
+				return "roundtrip/not-equal", fmt.Sprintf("%v", s.I.Describe(o)), fmt.Sprintf("%v from %s", s.I.Describe(*back), vec), vec
 			}
 			ba, gerr := s.ReadAll(*back)
 			if gerr != nil {
-				return "roundtrip/ill-formed", "well-formed", gerr.Error()
+				return "roundtrip/ill-formed", "well-formed", gerr.Error(), vec
 			}
 			for i := range ba {
 				if ba[i] != a[i] {
-					return "roundtrip/Get-differs-" + ver.Metrics[i].Abv, ver.Metrics[i].Values[a[i]], ver.Metrics[i].Values[ba[i]]
+					return "roundtrip/Get-differs-" + ver.Metrics[i].Abv, ver.Metrics[i].Values[a[i]], ver.Metrics[i].Values[ba[i]], vec
 				}
 			}
 		}
 		if preds&PredForeign != 0 {
 			for fi, f := range s.Foreign {
 				if f(vec) {
-					return fmt.Sprintf("foreign-accept/%d", fi), "Vector() of v" + ver.Name + " rejected by other versions' parsers", "accepted: " + vec
+					return fmt.Sprintf("foreign-accept/%d", fi), "Vector() of v" + ver.Name + " rejected by other versions' parsers", "accepted: " + vec, vec
 				}
 			}
 		}
@@ -280,14 +303,14 @@ func (s *OS[T, P]) stateInvariants(a spec.Assignment, o T, preds Pred) (key, exp
 		for _, sf := range s.I.Scores {
 			oo := o
 			if p := Safely(func() { sf.F(&oo) }); p != nil {
-				return sf.Name + "-panic", "no panic", fmt.Sprint(p)
+				return sf.Name + "-panic", "no panic", fmt.Sprint(p), vec
 			}
 			if oo != o {
-				return sf.Name + "-mutates", "receiver unchanged", s.I.Describe(oo)
+				return sf.Name + "-mutates", "receiver unchanged", s.I.Describe(oo), vec
 			}
 		}
 	}
-	return "", "", ""
+	return "", "", "", vec
 }
 
 func (s *OS[T, P]) report(a spec.Assignment, op []string, preds Pred, fastKey, fastObs string) {
@@ -391,6 +414,7 @@ func (s *OS[T, P]) Sweep(dims []Dim, bg spec.Assignment, preds Pred, workers int
 		dg := make([]int, len(dims))
 		a := bg.Clone()
 		var states, trans, traces int64
+		var prevVec, prevClone string
 		for idx := lo; idx < hi; idx++ {
 			if s.R.TooMany() {
 				break
@@ -415,9 +439,19 @@ func (s *OS[T, P]) Sweep(dims []Dim, bg spec.Assignment, preds Pred, workers int
 			if bad {
 				continue
 			}
-			if k, _, ob := s.stateInvariants(a, o, preds); k != "" {
+			k, _, ob, vec := s.stateInvariantsV(a, o, preds)
+			if k != "" {
 				s.report(a, nil, preds, k, ob)
 				continue
+			}
+			if vec != "" {
+				// a string returned by Vector() must still read the same after later calls (checked one state later)
+				if prevVec != prevClone {
+					s.R.Violation(Case{Kind: "obj-retained", Key: "v" + ver.Name + "/Vector/returned-string-changed-later",
+						Expected: "the string returned by Vector() keeps reading " + prevClone, Observed: "after serialising and parsing another object it reads " + strings.Clone(prevVec),
+						Args:     map[string]any{"version": ver.Name, "first": prevClone, "then": ver.Full(a)}}, nil)
+				}
+				prevVec, prevClone = vec, strings.Clone(vec)
 			}
 			if preds&(PredRoundTrip|PredWellFormed) != 0 {
 				trans += 2
